@@ -53,6 +53,15 @@ def site_of(case, step):
     return '*'
 
 
+def collision_tree():
+    """a word spelled like a category whose tag is the category of a unary node over that category:
+    (VROOT (A (B (T w1))) (A B)) - with lex_in_grammar the lexical production A -> B coincides with the rule A -> B"""
+    def n(y, d, tok, lab, word='~'):
+        return {'y': y, 'd': d, 'tok': tok, 'a': treeio.attr(lab=lab, word=word, edge='--', lemma='--', morph='--')}
+    return {'n': 2, 'nodes': [n([1, 2], 0, False, 'VROOT'), n([1], 1, False, 'A'), n([1], 2, False, 'B'),
+                              n([1], 3, True, 'T', 'w1'), n([2], 1, True, 'A', 'B')]}
+
+
 def comb_tree(k):
     """B covers the odd positions of 2k-1 tokens (k blocks), the even tokens hang below the root"""
     n = 2 * k - 1
@@ -111,6 +120,8 @@ def run(prop, tier, seed, replay=None):
                               for _ in range(rnd.randint(2, 3))]
                     bm = None if k % 2 == 0 else rnd.choice(ALL_MODES)
                     todo_files.append(('F-%05d' % k, Ts, bm, None, seed + k, False))
+                for j, bm_ in enumerate([None] + ALL_MODES[:2]):
+                    todo_files.append(('F-8%04d' % j, [collision_tree(), collision_tree()], bm_, None, seed + j, False))
             if prop == 'C09':
                 trees = []
                 for b in EX_BOUNDS[tier]:
@@ -128,6 +139,8 @@ def run(prop, tier, seed, replay=None):
                     todo_files.append(('F-%05d' % k, Ts, bm, None, seed + k, k % 8 == 0))
                 # fan-outs of two digits (the fan-out is a suffix of the RCG predicate names): a constituent with
                 # 9, 10, 12 blocks
+                for j, bm_ in enumerate([None] + ALL_MODES[:2]):
+                    todo_files.append(('F-8%04d' % j, [collision_tree(), collision_tree()], bm_, None, seed + j, j == 0))
                 for j, kb in enumerate((9, 10, 12) if tier == 'quick' else (9, 10, 11, 12, 20)):
                     todo_files.append(('F-9%04d' % j, [comb_tree(kb), comb_tree(2)], None, None, seed + j, True))
             if prop in ('C07', 'C08'):
